@@ -349,6 +349,9 @@ def run_check(prop_id, tier, seed):
     open_classes = known.open_classes()
     violations = []
     info = []
+    if hasattr(prop, 'selfcheck'):
+        # validates the oracle itself (e.g. a reference model against the spec); a failure is a harness error
+        info.append('oracle self-check passed: %r' % (prop.selfcheck(),))
 
     # 1. witnesses of recorded findings: open ones are announced, fixed ones are regressions
     regress = 0
